@@ -69,6 +69,9 @@ def want_status(kind, codes):
     return STATUS_TABLE.get(codes[0], 200 if codes[0] == 0 else 418) if codes else 200
 
 
+NO_REPLY_WAIT = 10.0      # seconds; loop-back requests normally take milliseconds
+
+
 class App:
     """one integration application + its twin dispatcher"""
 
@@ -155,12 +158,30 @@ class App:
         del self.status.args[:]
         try:
             if self.integration == 'aiohttp':
-                async def go():
+                async def go(path=path, media_type=media_type, body=body):
                     headers = {'Content-Type': media_type} if media_type is not None else {}
                     skip = None if media_type is not None else ['Content-Type']
                     async with self.client.post(path, data=body, headers=headers, skip_auto_headers=skip) as r:
                         return r.status, r.headers.get('Content-Type'), await r.read()
-                s, ct, b = world.run(go())
+
+                async def guarded():
+                    # a reply that never comes must not stall the run: after a generous wait a CONTROL request (a plain
+                    # call) goes to the same application; only if that one is answered is the silence a verdict
+                    import asyncio
+                    try:
+                        return await asyncio.wait_for(go(), NO_REPLY_WAIT)
+                    except asyncio.TimeoutError:
+                        pass
+                    try:
+                        control = json.dumps({'jsonrpc': '2.0', 'id': 'control', 'method': 'which'}).encode()
+                        cs, _, cb = await asyncio.wait_for(go(self.paths['root'], 'application/json', control), NO_REPLY_WAIT)
+                        return ('noreply', cs, cb)
+                    except asyncio.TimeoutError:
+                        return ('stalled',)
+                got = world.run(guarded())
+                if got[0] in ('noreply', 'stalled'):
+                    return got
+                s, ct, b = got
             else:
                 r = self.client.post(path, data=body, content_type=media_type)
                 s, ct, b = r.status_code, r.headers.get('Content-Type'), r.get_data()
@@ -217,9 +238,21 @@ def run_post(ctx, root, status_kind, path_key, media_type, body_hex, family):
         if integration == 'werkzeug' and (status_kind != 'default' or path_key != 'root'):
             continue
         app = get_app(integration, root, status_kind)
+        if getattr(app, 'silent', False):
+            ctx.skip('application-already-reported-silent')      # one report per application; every further one would wait again
+            continue
         rep = app.post(path_key, media_type, body)
         cls = (integration, root, status_kind, path_key, media_type, body_hex)
         fam = f'{integration}:{mclass}'
+        if rep[0] == 'stalled':
+            ctx.skip('loop-back-server-answers-nothing-at-all')         # inconclusive: the machine, not the library
+            continue
+        if rep[0] == 'noreply':
+            app.silent = True
+            ctx.violation('no-http-reply-while-the-application-answers-other-requests', fam, cls, integration=integration, root_path=root,
+                          endpoint=path_key, media_type=media_type, body=text if text is not None else body_hex,
+                          waited_seconds=NO_REPLY_WAIT, control_request_status=rep[1], executions=list(app.log.calls))
+            continue
         wit = dict(integration=integration, root_path=root, status_function=status_kind, endpoint=path_key, media_type=media_type,
                    body=text if text is not None else body_hex, reply=list(rep[:3]) + ([rep[3].decode('utf-8', 'replace')] if rep[0] == 'reply' else []),
                    executions=list(app.log.calls), status_function_arguments=list(app.status.args))
